@@ -60,3 +60,17 @@ func TestRewritesAgainstSolver(t *testing.T) {
 		}
 	}
 }
+
+func TestXorCancel(t *testing.T) {
+	c := NewCtx()
+	x, y, z := c.Var("x", BVSort(8)), c.Var("y", BVSort(8)), c.Var("z", BVSort(8))
+	if c.Eq(c.BVXor(x, c.BV(8, 1)), c.BVXor(x, c.BV(8, 2))) != c.False {
+		t.Fatal("x^1 = x^2 should fold to false")
+	}
+	if c.Eq(c.BVXor(x, c.BV(8, 3)), x) != c.False {
+		t.Fatal("x^3 = x should fold to false")
+	}
+	if c.Eq(c.BVXor(x, y), c.BVXor(z, x)) != c.Eq(y, z) {
+		t.Fatal("x^y = z^x should be y = z")
+	}
+}
